@@ -555,7 +555,14 @@ def c01_6(ctx, ss):
                 and isinstance(r_.args[0].right, ast.Constant) and r_.args[0].right.value == 1 \
                 and txt(flow.expand(r_.args[0].left, keep={txt(g1.target)})) == f"{names_src}.count({txt(g1.target)})"
             okc = okr and not g2.ifs and isinstance(lc.elt, ast.Name) and lc.elt.id == txt(g1.target)
-            okall = src in want_src and not g1.ifs
+            # ... or [x for name in <names> [if count(name) > 1] for x in [name] * (count(name) - 1)]
+            m_ = flow.expand(r_, keep={txt(g1.target)})
+            if isinstance(m_, ast.BinOp) and isinstance(m_.op, ast.Mult):
+                l_, n_ = (m_.left, m_.right) if isinstance(m_.left, ast.List) else (m_.right, m_.left)
+                okc = isinstance(l_, ast.List) and [txt(e_) for e_ in l_.elts] == [txt(g1.target)] and txt(n_) == f"{names_src}.count({txt(g1.target)}) - 1" \
+                    and not g2.ifs and isinstance(lc.elt, ast.Name) and lc.elt.id == txt(g2.target)
+            ifs1 = [txt(flow.expand(i_, keep={txt(g1.target)})) for i_ in g1.ifs]
+            okall = src in want_src and ifs1 in ([], [f"{names_src}.count({txt(g1.target)}) > 1"])
             (ctx.holds if okall else ctx.violation)("C01.6", ckey(ff, None, "all-duplicates"), where(ff, init[0].stmt),
                                                     "removals are scheduled for every mother that occurs more than once" if okall
                                                     else f"removals are scheduled over `{src[:120]}`: some repeated mothers keep all their blocks")
